@@ -4,7 +4,7 @@ from sa.lib import *
 from sa.forward import Forward
 from sa.dataflow import Poly, cmp_key
 from sa.resolve import walk_function
-from rules.common import sub_returns_allocation
+from rules.common import sub_returns_allocation, allocation_filters
 
 EXPLANATION = (
     "Decides the structural clauses of C03 (value-id / polynomial domain, no execution): (S1) Weights._to_nr_contracts stores exactly "
@@ -26,6 +26,7 @@ def run(ck, an, tier):
     s3(ck, an)
     s4(ck, an)
     s5(ck, an)
+    allocation_filters(ck, an, "S2")      # which entries of a target survive into the allocation (non-cash, non-zero, keyed by static hashing)
 
 
 def _conv(ck, an, short, rule, spec, result_cls, what):
